@@ -250,7 +250,8 @@ def meta(s0: int, s1: int, s2: int, q0: int, q1: int, n0: int, selfclose: bool, 
     w1 = chr(pick(WS4, s1))
     w2 = pick(WS5, s2)
     name = 'cp125' + pick('19az', n0)
-    doc = ('<html><head>' + w0 + '<meta' + w1 + 'http-equiv=' + qa + 'Content-Type' + qa + w1 +
+    pad = ('<!-- ' + 'licence text ' * CFG.get('pad', 0) + '-->') if CFG.get('pad') else ''
+    doc = ('<html><head>' + pad + w0 + '<meta' + w1 + 'http-equiv=' + qa + 'Content-Type' + qa + w1 +
            'content=' + qb + 'text/html;' + (chr(w2) if w2 else '') + 'charset=' + name + qb +
            (' /' if selfclose else '') + '></head></html>')
     if CFG.get('upper'):
